@@ -9,6 +9,7 @@ The image: two uncompressed metadata blocks back to back,
 window `start = 0`, `limit = 10`.
 -/
 import Sqfs.Model.MetaReader
+import Sqfs.Model.DataReaderCache
 namespace Sqfs.C10.Witness
 open Sqfs.MetaReader
 
@@ -58,6 +59,30 @@ theorem d3_history_repaired :
     m.dataUsed = 0 ∧ m.offset = 0 ∧ m.tag = NONE ∧
     (read true img toyUnc m 1).1 = Sqfs.Consts.errOutOfBounds ∧
     (read true img toyUnc m 8190).1 = Sqfs.Consts.errOutOfBounds := by
+  decide +kernel
+
+
+/-! ### D21: the data-block cache of the current code is keyed by location only
+
+Damaged image: eight data bytes `01 … 08` at location 0, block size 8.  Inode A lists one uncompressed block of
+8 bytes at location 0 (size word `0x1000008`), inode B one uncompressed block of 4 bytes at the same location
+(`0x1000004`).  On a fresh reader B reads `01 02 03 04 00 00 00 00`; after A has been read, B is served A's
+cached block. -/
+
+def dimg : File := { size := 8, byte := fun i => UInt8.ofNat (i + 1), bad := fun _ => false }
+def inoA : DataReader.Inode := { fileSize := 8, blocksStart := 0, fragIdx := 4294967295, fragOff := 0, blocks := [16777224] }
+def inoB : DataReader.Inode := { fileSize := 8, blocksStart := 0, fragIdx := 4294967295, fragOff := 0, blocks := [16777220] }
+
+theorem d21_answer_depends_on_history :
+    (DataReader.read false dimg toyUnc (DataReader.run false dimg toyUnc (DataReader.fresh 8 []) [.read inoA 0 8]) inoB 0 8).1
+      = (0, [1, 2, 3, 4, 5, 6, 7, 8]) ∧
+    (DataReader.read false dimg toyUnc (DataReader.fresh 8 []) inoB 0 8).1 = (0, [1, 2, 3, 4, 0, 0, 0, 0]) := by
+  decide +kernel
+
+/-- with the cache keyed by the size word too, the same history is harmless -/
+theorem d21_history_repaired :
+    (DataReader.read true dimg toyUnc (DataReader.run true dimg toyUnc (DataReader.fresh 8 []) [.read inoA 0 8]) inoB 0 8).1
+      = (0, [1, 2, 3, 4, 0, 0, 0, 0]) := by
   decide +kernel
 
 end Sqfs.C10.Witness
